@@ -139,8 +139,10 @@ def decisions(level, key, value, beh):
                 cands = [(alt, f"default of {key}({level})={alt!r}"), ("", f"default of {key}({level})=''")]
             for dflt, dtag in cands:
                 if value is None:
-                    # a key-only SSC-only property is outside the stated states; the trimmed value does not exist
-                    add("raise", dtag or tag)
+                    # a key-only SSC-only property ('#FAKES;') has no value to trim: read as the empty value (left out when
+                    # the default is empty) or refused - either reading, but never another kind of failure
+                    add("skip" if dflt == "" else "raise", dtag or tag)
+                    add("raise", f"key-only {key}({level}) refused")
                 else:
                     add("skip" if value.strip() == dflt else "raise", dtag or tag)
     if level == "chart" and key == "WARPS" and value is not None and value.strip():
@@ -460,6 +462,8 @@ SM_FREE_KEYS = [
 
 
 def _value_for(level, key, state, pad):
+    if state == "keyonly":
+        return None
     dflt = DEFAULTS.get(key, "")
     alt = ALT_DEFAULTS.get((level, key))
     if state == "empty":
@@ -513,7 +517,7 @@ def _free_pairs():
     )
 
 
-STATES = ["absent", "absent", "keep", "keep", "empty", "default", "default", "alt-default", "padded", "padded", "nondefault", "padded-nondefault"]
+STATES = ["absent", "absent", "keep", "keep", "empty", "default", "default", "alt-default", "padded", "padded", "nondefault", "padded-nondefault", "keyonly"]
 
 
 @st.composite
